@@ -34,6 +34,8 @@ CLAIMED = {
          "Seeded search over sequences of async_resolve (host names with per-name latency, 0-3 addresses or an error; IPv4/IPv6 literals; unknown names; numeric ports) and cancel on TCP and UDP resolvers, issued at the same instant, microseconds to 400 ms apart, 100-700 ns apart, and from inside completion handlers; every completion is compared with the recurrence max(request, previous pending lookup)+latency (+<=1 us per literal pending), request order, exactly-once, the configured result, and hostname_lookup call counts; plus every sequence of up to 3 (quick) / 4 (thorough) lookups over a small alphabet with a cancel at every position.", "3.14"),
  "C16": ("apps_http", "exploration", "deterministic simulation: HTTP server under every cut of the request byte stream, with early client EOF and stop() placements",
          "Seeded search over request sequences (handler, ranged and whole content, redirect, unknown and stalling paths; with and without Connection: close; keep-alive on and off; malformed inputs), all ways of cutting the client byte stream into writes spaced in virtual time (byte-at-a-time, inside the method, inside CRLFCRLF, several requests per write), pipelining depths, 1-4 successive or overlapping clients, client EOF at generated offsets, and stop() from a timer, at a step-hook boundary or after quiescence, over loss-free routes with varied latency, bandwidth and MTU. A reference model computes the expected response stream per connection; responses are matched by index and checked byte-exactly, with content-length framing, close behaviour, next-client acceptance and port release after stop().", "3.16"),
+ "C19": ("tcp", "exploration", "deterministic simulation: capture file re-read by an independent parser and compared with probe-observed sends",
+         "The C05 program generator (several IPv4 TCP connections, both directions, finite queues and fault sinks causing retransmission, closes, reconnects) plus UDP datagrams that fit one IPv4 packet, with capture enabled. After the simulation is destroyed the file is parsed by an independent reader and compared record by record with what the first-hop probes saw being transmitted: count and order, lengths, IP/UDP/TCP header fields, true addresses and ports, payload bytes, timestamp = capture epoch + virtual send time (non-decreasing), TCP sequence number = payload bytes previously transmitted in that direction, starting at zero.", "3.19"),
 }
 
 NOT_YET = "not claimed yet: the engine for this property is still under construction in this tree"
